@@ -475,13 +475,13 @@ def run(prop, tier, seed):
             info["states"] += r.distinct
             info["transitions"] += r.generated
             if not ok:
+                # the one-at-a-time meaning is that of SlashRules (whose agreement with the unchanged code's sequential behaviour C01 / C09
+                # establish with zero drift); if the code's own sequential behaviour has moved as well, that is said, not hidden
                 sdrift = seq_conformance(wd, seed)
-                if sdrift:
-                    raise Inconclusive("a recorded history is rejected by AtomicTrace, but the real code's SEQUENTIAL behaviour also "
-                                       "differs from SlashRules (%d differences, e.g. %s): the linearizability oracle does not apply" % (len(sdrift), sdrift[0]))
                 a, b_, sid = first_rejected(lines, index, wd)
                 sc = [s for s in scenarios if s["id"] == sid][0]
-                verdict.violation("nonlinearizable:" + sid, "history of scenario %s is not linearizable w.r.t. the sequential rules" % sid,
+                note = "" if not sdrift else " (the code's SEQUENTIAL behaviour differs from the rules as well: %d differences, e.g. %s)" % (len(sdrift), sdrift[0])
+                verdict.violation("nonlinearizable:" + sid, "history of scenario %s is not linearizable w.r.t. the sequential rules%s" % (sid, note),
                                   dict(scenario=sc, trace=lines[a - 1:b_]))
             sample = lines[index[0][0] - 1:index[0][1]] if index else []
             # layer D: the detailed traces must be behaviours of Signer.tla (DRIFT signal, never a verdict)
